@@ -1,9 +1,10 @@
 /- Decidable versions of the hypotheses of `readXml_plain_file`, so that the driver can evaluate them on the tree the
    real tool parsed, and their soundness. -/
 import ZeepVerif.Lemmas.ReadFile
+import ZeepVerif.Lemmas.ReadComp
 
 namespace ZeepVerif.Lemmas.ReadDecide
-open ZeepVerif ZeepVerif.Model ZeepVerif.Lemmas.ReadField ZeepVerif.Lemmas.ReadFile
+open ZeepVerif ZeepVerif.Model ZeepVerif.Lemmas.ReadField ZeepVerif.Lemmas.ReadFile ZeepVerif.Lemmas.ReadComp
 
 def plainDeclB (node : XNode) : Bool :=
   node.isElem && node.tag != "any" && (node.attr? "name").isSome && (node.attr? "ref").isNone &&
@@ -80,5 +81,93 @@ theorem readXml_of_plainFileB (xf : XFile) (h : plainFileB xf = true) :
             nodes := (fileDoc schema tns).nodes ++ schema.kids.filterMap (nodeOf (fileDoc schema tns) [schema]) } := by
   obtain ⟨schema, tns, hp⟩ := plainFileB_sound xf h
   exact ⟨schema, tns, hp.tops, readXml_plain_file xf schema tns hp⟩
+
+
+/-! ### all covered component kinds -/
+
+theorem compOf_isSome (d d' : Doc) (anc : List XNode) (k : XNode) : (compOf d anc k).isSome = (compOf d' anc k).isSome := by
+  unfold compOf
+  by_cases h1 : (k.tag == "complexType") = true
+  · simp [h1, Option.isSome_map]
+  · by_cases h2 : (k.tag == "simpleType") = true
+    · simp only [h1, h2, if_true, Bool.false_eq_true, if_false]
+      cases k.attr? "name" <;> cases k.kids.find? isRestriction <;> simp [Option.isSome_map]
+    · by_cases h3 : (k.tag == "element") = true
+      · simp only [h1, h2, h3, if_true, Bool.false_eq_true, if_false]
+        cases k.attr? "name" <;> cases k.attr? "type" <;> cases k.elemKids.find? (fun n => n.tag == "complexType") <;> simp
+      · simp [h1, h2, h3]
+
+def coveredKidB (schema : XNode) (k : XNode) : Bool :=
+  !k.isElem || (
+    (k.attr? "targetNamespace").isNone && k.nss.all (fun pu => schema.nss.contains pu) && k.tag != "import" &&
+    (compOf {} [schema] k).isSome &&
+    (k.tag != "complexType" || k.elemKids.all (plainChildB [k, schema])) &&
+    (k.tag != "element" || (k.attr? "type").isSome ||
+      (match k.elemKids.find? (fun n => n.tag == "complexType") with
+       | none => true
+       | some ct => (ct.attr? "name").isNone && ct.nss.all (fun pu => schema.nss.contains pu) &&
+           ct.elemKids.all (plainChildB [ct, k, schema]))))
+
+/-- decidable form of `CoveredFile` -/
+def coveredFileB (xf : XFile) : Bool :=
+  match xf.tops with
+  | some [schema] =>
+    schema.isElem && schema.tag == "schema" && (schema.attr? "targetNamespace").isSome && schema.kids.all (coveredKidB schema)
+  | _ => false
+
+theorem coveredFileB_sound (xf : XFile) (h : coveredFileB xf = true) : ∃ schema tns, CoveredFile xf schema tns := by
+  unfold coveredFileB at h
+  match ht : xf.tops, h with
+  | some [schema], h =>
+    simp only [Bool.and_eq_true, beq_iff_eq] at h
+    obtain ⟨⟨⟨he, htag⟩, htns⟩, hk⟩ := h
+    cases hq : schema.attr? "targetNamespace" with
+    | none => simp [hq] at htns
+    | some tns =>
+      have habs : ∀ (l : List (Option String × String)), l.all (fun pu => schema.nss.contains pu) = true →
+          ∀ pu ∈ l, Absorbed (fileDoc schema tns) pu := by
+        intro l hl pu hpu
+        have := (List.all_eq_true.mp hl) pu hpu
+        exact switch_absorbed _ tns pu (collectNamespaces_absorbs {} schema.nss pu (by simpa using this))
+      refine ⟨schema, tns, ⟨ht, he, htag, hq, ?_, ?_⟩⟩
+      · intro k hkm
+        have hkb := (List.all_eq_true.mp hk) k hkm
+        cases k with
+        | other => exact Or.inl rfl
+        | elem t a n tx ks =>
+          right
+          simp only [coveredKidB, XNode.isElem, Bool.not_true, Bool.false_or, Bool.and_eq_true, Option.isNone_iff_eq_none] at hkb
+          obtain ⟨⟨⟨⟨⟨h1, h2⟩, _⟩, h4⟩, h5⟩, h6⟩ := hkb
+          refine ⟨rfl, h1, habs _ h2, ?_, ?_, ?_⟩
+          · rw [compOf_isSome _ {} ]; exact h4
+          · intro htg c hc
+            simp only [Bool.or_eq_true, bne_iff_ne, ne_eq] at h5
+            rcases h5 with h5 | h5
+            · exact absurd htg h5
+            · exact plainChildB_sound _ c ((List.all_eq_true.mp h5) c hc)
+          · intro htg hty ct hct
+            simp only [Bool.or_eq_true, bne_iff_ne, ne_eq] at h6
+            rcases h6 with (h6 | h6) | h6
+            · exact absurd htg h6
+            · simp [hty] at h6
+            · rw [hct] at h6
+              simp only [Bool.and_eq_true, Option.isNone_iff_eq_none] at h6
+              obtain ⟨⟨g1, g2⟩, g3⟩ := h6
+              exact ⟨g1, habs _ g2, fun c hc => plainChildB_sound _ c ((List.all_eq_true.mp g3) c hc)⟩
+      · intro k hkm
+        have hkb := (List.all_eq_true.mp hk) k hkm
+        cases k with
+        | other => simp [XNode.tag]
+        | elem t a n tx ks =>
+          simp only [coveredKidB, XNode.isElem, Bool.not_true, Bool.false_or, Bool.and_eq_true, bne_iff_ne, ne_eq] at hkb
+          exact hkb.1.1.1.2
+
+/-- **the general file-level theorem in decidable form** -/
+theorem readXml_of_coveredFileB (xf : XFile) (h : coveredFileB xf = true) :
+    ∃ schema tns, xf.tops = some [schema] ∧ readXml [xf] xf.name =
+      .ok { fileDoc schema tns with
+            nodes := (fileDoc schema tns).nodes ++ schema.kids.filterMap (nodeOfC (fileDoc schema tns) [schema]) } := by
+  obtain ⟨schema, tns, hp⟩ := coveredFileB_sound xf h
+  exact ⟨schema, tns, hp.tops, readXml_covered_file xf schema tns hp⟩
 
 end ZeepVerif.Lemmas.ReadDecide
